@@ -15,6 +15,7 @@ import (
 	"log"
 	"net"
 	"os"
+	"strings"
 	"sync"
 	"sync/atomic"
 	"time"
@@ -391,10 +392,18 @@ func (pm *Portmapper) handleCall(data []byte, remoteAddr net.Addr) ([]byte, erro
 		switch procedure {
 		case 0: // RPCBPROC_NULL
 			result = nil
-		case 1: // RPCBPROC_SET - not implemented
-			result = pm.handleRpcbSet(r)
-		case 2: // RPCBPROC_UNSET - not implemented
-			result = pm.handleRpcbUnset(r)
+		case 1: // RPCBPROC_SET
+			if !isLoopbackPeer(remoteAddr) {
+				result = pm.encodeBool(false) // same rule as portmap v2: local callers only
+			} else {
+				result = pm.handleRpcbSet(r)
+			}
+		case 2: // RPCBPROC_UNSET
+			if !isLoopbackPeer(remoteAddr) {
+				result = pm.encodeBool(false)
+			} else {
+				result = pm.handleRpcbUnset(r)
+			}
 		case 3: // RPCBPROC_GETADDR
 			result = pm.handleGetAddr(r)
 		case 4: // RPCBPROC_DUMP
@@ -405,6 +414,25 @@ func (pm *Portmapper) handleCall(data []byte, remoteAddr net.Addr) ([]byte, erro
 	}
 
 	return pm.makeReply(xid, MSG_ACCEPTED, result), nil
+}
+
+// isLoopbackPeer reports whether the caller of a registry-modifying procedure
+// (SET/UNSET of any protocol version) is on a loopback address. A nil address
+// is an in-process caller. An address that cannot be parsed is not known to be
+// local and is refused.
+func isLoopbackPeer(remoteAddr net.Addr) bool {
+	if remoteAddr == nil {
+		return true
+	}
+	host, _, err := net.SplitHostPort(remoteAddr.String())
+	if err != nil {
+		host = remoteAddr.String()
+	}
+	if i := strings.IndexByte(host, '%'); i >= 0 {
+		host = host[:i] // IPv6 zone, e.g. fe80::1%eth0
+	}
+	ip := net.ParseIP(host)
+	return ip != nil && ip.IsLoopback()
 }
 
 func (pm *Portmapper) skipAuth(r io.Reader) error {
@@ -509,12 +537,8 @@ func (pm *Portmapper) handleDump() []byte {
 
 func (pm *Portmapper) handleSet(r io.Reader, remoteAddr net.Addr) []byte {
 	// Only allow SET from localhost
-	if remoteAddr != nil {
-		host, _, _ := net.SplitHostPort(remoteAddr.String())
-		ip := net.ParseIP(host)
-		if ip != nil && !ip.IsLoopback() {
-			return pm.encodeBool(false)
-		}
+	if !isLoopbackPeer(remoteAddr) {
+		return pm.encodeBool(false)
 	}
 
 	var prog, vers, prot, port uint32
@@ -538,12 +562,8 @@ func (pm *Portmapper) handleSet(r io.Reader, remoteAddr net.Addr) []byte {
 
 func (pm *Portmapper) handleUnset(r io.Reader, remoteAddr net.Addr) []byte {
 	// Only allow UNSET from localhost
-	if remoteAddr != nil {
-		host, _, _ := net.SplitHostPort(remoteAddr.String())
-		ip := net.ParseIP(host)
-		if ip != nil && !ip.IsLoopback() {
-			return pm.encodeBool(false)
-		}
+	if !isLoopbackPeer(remoteAddr) {
+		return pm.encodeBool(false)
 	}
 
 	var prog, vers, prot, port uint32
